@@ -143,7 +143,7 @@ def main(argv=None):
     for v in viol:
         by_mech.setdefault(v['mech'], []).append(v)
     lines, n_unknown, known_seen = [], 0, []
-    rdir = os.path.join(core.VERIF, 'replays', prop)
+    rdir = os.path.join(os.environ.get('VERIF_REPLAY_DIR') or os.path.join(core.VERIF, 'replays'), prop)
     for mech in sorted(by_mech):
         vs = by_mech[mech]
         k = core.classify(prop, mech, known)
@@ -190,11 +190,13 @@ def main(argv=None):
             'inconclusive': [core.jsonable(x) for x in inconc[:10]],
             'repo': core.REPO,
         }
-        os.makedirs(os.path.join(core.VERIF, 'evidence'), exist_ok=True)
-        tmp = os.path.join(core.VERIF, 'evidence', '.%s.tmp' % prop)
+        # self-tests against scratch copies divert the evidence so that evidence/ always describes /repo
+        evdir = os.environ.get('VERIF_EVIDENCE_DIR') or os.path.join(core.VERIF, 'evidence')
+        os.makedirs(evdir, exist_ok=True)
+        tmp = os.path.join(evdir, '.%s.tmp' % prop)
         with open(tmp, 'w') as f:
             json.dump(ev, f, indent=1)
-        os.replace(tmp, os.path.join(core.VERIF, 'evidence', prop + '.json'))
+        os.replace(tmp, os.path.join(evdir, prop + '.json'))
 
     for ln in lines[:60]:
         print(ln)
